@@ -74,12 +74,16 @@ Definition gf (g : gfun) (v : val) : list val :=
   end.
 
 (* batch functions: element-wise, or deliberately partition-sensitive / length-changing ones *)
-Inductive bfun := BEach (f : efun) | BRevChunk | BDropLast.
+Inductive bfun := BEach (f : efun) | BRevChunk | BDropLast
+                | BDup                                 (* every element twice: expands, element-wise *)
+                | BHeader.                             (* prepends Int(-1) to every chunk: expands *)
 Definition bf (b : bfun) (l : list val) : list val :=
   match b with
   | BEach f => map (ef f) l
   | BRevChunk => rev l
   | BDropLast => removelast l
+  | BDup => flat_map (fun x => [x; x]) l
+  | BHeader => VInt (-1) :: l
   end.
 
 (* ---------- total order on values (derived Ord of the harness's `Val`) ---------- *)
